@@ -203,6 +203,12 @@ def units(tier: str) -> List[Any]:
                     us.append(("loop", kind, M, L, trig))
     for kind in ("pure", "choose", "enqueue"):
         us.append(("loop", kind, 60, 55, "event"))
+    # a runaway chain and a FINITE chain alive in one drain of the sync engine: the finite chain (L <= M links) is started by
+    # another thread's send() while the runaway chain is at its j-th link; cutting the runaway one must not shorten it
+    for M in Ms[:2]:
+        for j in range(1, M + 1):
+            for L in range(1, M + 1):
+                us.append(("twochains", M, j, L, None))
     for M in Ms:
         for B in (M - 1, M + 1, 3 * M):
             for how in ("send_events", "sends", "during-suspended-action"):
@@ -218,8 +224,71 @@ def legal_simple(conf) -> bool:
     return len(tops) == 1
 
 
+def run_two_chains(unit):
+    import threading as _threading
+
+    from xstate_statemachine import MachineLogic, SyncInterpreter, create_machine
+
+    _, M, j, L, _n = unit
+    res = dict(states=0, transitions=0, executions=1, evaluations=1, distinct_count=1, violations=[], samples=[], caps=[])
+    cfg = {"id": "c13", "initial": "busy", "maxIterations": M, "context": {"loops": 0, "steps": 0, "pings": 0},
+           "states": {"busy": {"on": {"LOOP": {"actions": ["loop"]}, "STEP": {"actions": ["step"]}, "PING": {"actions": ["ping"]}}}}}
+
+    def loop(interp, ctx, event, action_def):
+        ctx["loops"] += 1
+        if ctx["loops"] > 50 * M:
+            raise Budget("runaway chain never cut")
+        if ctx["loops"] == j:
+            t = _threading.Thread(target=lambda: interp.send("STEP"))   # an outside producer; joined: deterministic
+            t.start()
+            t.join()
+        interp.send("LOOP")
+
+    def step(interp, ctx, event, action_def):
+        ctx["steps"] += 1
+        if ctx["steps"] < L:
+            interp.send("STEP")
+
+    def ping(interp, ctx, event, action_def):
+        ctx["pings"] += 1
+
+    it = SyncInterpreter(create_machine(cfg, logic=MachineLogic(actions={"loop": loop, "step": step, "ping": ping})))
+    bad = []
+    try:
+        it.start()
+        try:
+            it.send("LOOP")
+        except Budget:
+            bad.append(("chain-never-cut", "the runaway chain ran 50*M links"))
+        except Exception:  # noqa: BLE001  (the cut may be reported by an exception)
+            pass
+        try:
+            it.send("PING")
+        except Exception:  # noqa: BLE001
+            pass
+        ctx = it.context
+        if ctx["steps"] != L:
+            bad.append(("finite-chain-cut-short(another-chain-hit-the-bound)", f"finite chain of {L} links (bound {M}) made {ctx['steps']} steps; runaway chain made {ctx['loops']}"))
+        if ctx["pings"] != 1:
+            bad.append(("event-after-cut-not-processed", f"PING handled {ctx['pings']} times"))
+        if ctx["loops"] > M + 1:
+            bad.append(("chain-longer-than-bound", f"runaway chain made {ctx['loops']} links with maxIterations {M}"))
+    finally:
+        try:
+            it.stop()
+        except Exception:  # noqa: BLE001
+            pass
+    for clause, detail in bad:
+        res["violations"].append(dict(signature=f"C13|{clause}|sync|twochains", clause=clause,
+                                      what=f"sync: {clause}: {detail}; case {unit}", size=1, replay=dict(unit=list(unit), engine="sync")))
+    res["samples"].append(dict(case=list(unit)))
+    return res
+
+
 def run_unit(unit):
     kind0 = unit[0]
+    if kind0 == "twochains":
+        return run_two_chains(unit)
     res = dict(states=0, transitions=0, executions=0, evaluations=0, distinct_count=0, violations=[], samples=[], caps=[])
 
     def flag(clause, detail, engine):
